@@ -5,6 +5,7 @@
 From Coq Require Import ZArith List Bool String.
 From Verif Require Import AdmitTotal.Base AdmitTotal.Model AdmitTotal.Theorems AdmitTotal.Sites Gen.PanicSites.
 From Verif Require Import AdmitTotal.State AdmitTotal.ProofsState1 AdmitTotal.ProofsState2 AdmitTotal.ProofsState4 AdmitTotal.ProofsState5 AdmitTotal.TheoremsState AdmitTotal.ProofsKeys2 AdmitTotal.TheoremsKeys AdmitTotal.ProofsConf AdmitTotal.ProofsBounds.
+From Verif Require VmGuard.Lang VmGuard.Balance Gen.AdmitLocks.
 Import ListNotations.
 
 (** types.Tx.Validate (mempool.verifyTx, and the first step of chain.executeTx) terminates with
@@ -187,3 +188,36 @@ Print Assumptions C14_dispatch_complete.
 Theorem C14_sites_covered : sites_covered Gen.PanicSites.sites = true.
 Proof. vm_compute. reflexivity. Qed.
 Print Assumptions C14_sites_covered.
+
+(* ------------------------------------------------------------------------------------------
+   Admission terminates: no path out of a pool function leaves a mutex held.  gen_panicsites_locks
+   translates every function of mempool/*.go that operates on a mutex, once per (mutex, mode), into
+   the statement language of VmGuard/Lang.v with acquire = IncV and release = DecV (deferred
+   releases are Defer); the counter analysis of VmGuard/Balance.v is run on it on every build. *)
+Definition no_bracket : string -> bool := fun _ => false.
+
+Theorem C14_pool_lock_paths_checked :
+  Balance.counter_ok no_bracket [] Gen.AdmitLocks.lock_program [] = true /\
+  Gen.AdmitLocks.lock_unsupported = [] /\
+  existsb (String.eqb "MemPool.verifyTx@mp.r"%string) (map fst Gen.AdmitLocks.lock_program) = true /\
+  existsb (String.eqb "MemPool.put@mp.w"%string) (map fst Gen.AdmitLocks.lock_program) = true.
+Proof. vm_compute. repeat split. Qed.
+Print Assumptions C14_pool_lock_paths_checked.
+
+(** Every run of every translated pool function, whatever branches it takes and whether it ends
+    at the end of the body, by a return or by a panic statement: the releases performed, those of
+    the deferred statements included, equal the acquires (the counter of held locks is back at
+    its entry value).  A leaked lock -- a return between Lock and Unlock -- is a path on which
+    [d + pp] is 1: it makes [counter_ok] false and this theorem's proof fail. *)
+Theorem C14_pool_locks_released : forall f body d pp o l,
+  Lang.lookup Gen.AdmitLocks.lock_program f = Some body ->
+  Balance.crun Gen.AdmitLocks.lock_program [] (Balance.flagsb false) body (0, 0)%Z (d, pp) o l ->
+  (d + pp = 0)%Z.
+Proof.
+  intros f body d pp o l Hl Hr.
+  destruct C14_pool_lock_paths_checked as (Hok & _).
+  destruct (Balance.counter_discipline no_bracket [] _ [] Hok f body (Balance.flagsb false) d pp o l 0%Z Hl eq_refl
+              (fun _ => eq_refl) (Z.le_refl 0) Hr) as [Hz _].
+  simpl in Hz. exact Hz.
+Qed.
+Print Assumptions C14_pool_locks_released.
